@@ -1,10 +1,10 @@
 #!/bin/sh
-# tools/confirm_seed.sh <PROP> <i> [checkprop]: confirm a sub-agent's change in a scratch worktree of /repo HEAD,
+# tools/confirm_seed.sh <PROP> <i> [checkprop] [srcdir] [stored index]: confirm a sub-agent's change in a scratch worktree of /repo HEAD,
 # store it under seeded/<PROP>-<i>/ and run the property's quick check against it (applied to /repo, then undone).
 set -u
 P=$1; I=$2; CP=${3:-$P}
-SRC=/tmp/seed/$P.out
-WT=/tmp/confirm_${P}_${I}
+SRC=${4:-/tmp/seed/$P.out}; J=${5:-$I}
+WT=/tmp/confirm_${P}_${J}
 rm -rf $WT; git -C /repo worktree prune
 git -C /repo worktree add -q --detach $WT HEAD || exit 2
 R=0
@@ -21,7 +21,7 @@ if [ $R = 0 ]; then
 fi
 git -C /repo worktree remove --force $WT
 [ $R = 0 ] || { echo "NOT CONFIRMED (code $R)"; exit $R; }
-D=/verif/seeded/$P-$I
+D=/verif/seeded/$P-$J
 mkdir -p $D
 cp $SRC/patch$I.diff $D/patch.diff; cp $SRC/demo$I.py $D/demo.py
 git -C /repo apply $D/patch.diff && ( cd /verif && bin/check $CP --tier quick > /tmp/confirm.check 2>&1 ); CR=$?
